@@ -206,7 +206,7 @@ pub fn observe_ctx(ctx: &Context, tags: &mut Tags, orphans: &HashSet<(u64, u64)>
 }
 
 /// The well-formedness invariants, stated natively on the Rust objects.
-fn check_invariants(ctx: &Context, orphans: &HashSet<(u64, u64)>) -> std::result::Result<(), String> {
+pub fn check_invariants(ctx: &Context, orphans: &HashSet<(u64, u64)>) -> std::result::Result<(), String> {
     let graphs = ctx.get_graphs();
     if ctx.get_num_graphs() as usize != graphs.len() {
         return Err("get_num_graphs".into());
@@ -331,7 +331,7 @@ fn invalid_types() -> Vec<Type> {
     ]
 }
 
-fn classify(kind: &str, msg: &str) -> u64 {
+pub fn classify(kind: &str, msg: &str) -> u64 {
     let has = |s: &str| msg.contains(s);
     match kind {
         "create_graph" => 1,
@@ -373,6 +373,7 @@ struct History {
     rejected: usize,
     viol: Vec<(String, String)>,
     closing_at: Option<usize>, // from this step on the generator works towards a finalized context
+    no_supplied: bool,         // never call add_node_with_type (C12: stored types must be the inferred ones)
     finalized: HashSet<(usize, u64)>,
 }
 
@@ -530,7 +531,7 @@ fn run_history(h: &mut History, ncalls: usize, tags: &mut Tags, out: &mut Out, s
                 }
             }
             // supplied type (add_node_with_type): mostly the right one is not known, so use a pool type
-            let supplied: Option<Type> = if h.rng.chance(1, 6) {
+            let supplied: Option<Type> = if !h.no_supplied && h.rng.chance(1, 6) {
                 Some(if h.rng.chance(1, 3) { invalid[h.rng.below(invalid.len() as u64) as usize].clone() } else { pick_t(&mut h.rng) })
             } else { None };
             let before = g.graph.get_num_nodes();
@@ -729,6 +730,27 @@ fn run_history(h: &mut History, ncalls: usize, tags: &mut Tags, out: &mut Out, s
     }
 }
 
+/// A random history for other properties (C12): returns the contexts and, per context, the
+/// Gallina call list that rebuilds its model state.
+pub fn random_history(rng: &mut Rng, ncalls: usize, nctx: usize, closing: bool, tags: &mut Tags, out: &mut Out, stats_prefix: &str) -> (Vec<Context>, Vec<Vec<String>>) {
+    let mut h = History {
+        rng: rng.fork(),
+        w: World { ctxs: (0..nctx).map(|_| create_context().unwrap()).collect(), orphans: vec![HashSet::new(); nctx] },
+        graphs: vec![],
+        nodes: vec![],
+        calls: vec![vec![]; nctx],
+        steps: vec![vec![]; nctx],
+        last_obs: vec![],
+        rejected: 0,
+        viol: vec![],
+        closing_at: if closing { Some(ncalls * 6 / 10) } else { None },
+        no_supplied: true,
+        finalized: HashSet::new(),
+    };
+    run_history(&mut h, ncalls, tags, out, stats_prefix);
+    (h.w.ctxs.clone(), h.calls.clone())
+}
+
 pub fn run(tier: &str, seed: u64, out: &mut Out) {
     let mut rng = Rng::new(seed ^ 0xC11);
     let nhist = match tier { "thorough" => 700, "search" => 4000, _ => 110 };
@@ -753,6 +775,7 @@ pub fn run(tier: &str, seed: u64, out: &mut Out) {
             rejected: 0,
             viol: vec![],
             closing_at: if rng.chance(2, 5) { Some(ncalls * (3 + rng.below(5) as usize) / 10) } else { None },
+            no_supplied: false,
             finalized: HashSet::new(),
         };
         run_history(&mut h, ncalls, &mut tags, out, "");
